@@ -274,3 +274,104 @@ def _alr_runtime(key, n_lookups, languages, exclude_dflt, with_script):
 for _nm, _n, _l, _x, _w in (("script-dflt-TRK-AZE", 2, ("dflt", "TRK ", "AZE "), False, True), ("script-TRK-only", 1, ("TRK ",), False, True), ("script-URD-dflt", 2, ("URD ", "dflt"), False, True),
                             ("script-no-languages", 1, None, False, True), ("script-exclude-dflt", 1, ("dflt", "TRK "), True, True), ("no-script", 2, None, False, False)):
     _alr_runtime("ufo2ft.featureWriters.ast:addLookupReferences#" + _nm, _n, _l, _x, _w)
+
+
+# =====================================================================================================================
+# ast.getScriptLanguageSystems (reachable since the engine supports d.setdefault(k, []).append(x)): set-level clauses —
+# the filtered list comprehension is modelled without order, so "in statement order" stays with the hook
+
+
+@specfn(STR, opaque=True, tag=STR)
+def ot_script(tag):
+    """fontTools.unicodedata.ot_tag_to_script(tag): a function of the tag (trusted library, opaque in the logic)"""
+    from fontTools import unicodedata
+
+    return unicodedata.ot_tag_to_script(tag)
+
+
+@M.shim_function("OrderedDict", "collections.OrderedDict() is an empty insertion-ordered dict")
+def _ordered_dict(ex, st, args, kwargs, node):
+    from pyvc.core import PYOBJ, Unsupported
+
+    if args or kwargs:
+        raise Unsupported("OrderedDict with arguments", node)
+    return Val(PYOBJ, None, {}, True)
+
+
+@M.shim_function("ot_tag_to_script", "fontTools.unicodedata.ot_tag_to_script(tag) returns ot_script(tag): a function of the tag")
+def _ot_tag_to_script(ex, st, args, kwargs, node):
+    return ex.apply_spec(SPECFNS["ot_script"], [args[0]], st, node)
+
+
+import types as _types  # noqa: E402
+
+_COLLECTIONS = _types.ModuleType("c20collections")
+_COLLECTIONS.OrderedDict = _ordered_dict
+_UNICODEDATA = _types.ModuleType("c20unicodedata")
+_UNICODEDATA.ot_tag_to_script = _ot_tag_to_script
+
+LANGMAP = Dict(STR, List(Tuple(STR, List(STR))))
+_ST = "feaFile.statements"
+_KEPT = "({s}.kind == 'LanguageSystemStatement' and not ({s}.script == 'DFLT' and excludeDflt))"
+contract(
+    "ufo2ft.featureWriters.ast:getScriptLanguageSystems",
+    props=["C20"],
+    params={"feaFile": Ref(FEAFILE), "excludeDflt": BOOL},
+    returns=LANGMAP,
+    globals={"ast": M.fea_shim(), "isinstance": M.ISINSTANCE, "collections": Val.obj(_COLLECTIONS), "unicodedata": Val.obj(_UNICODEDATA)},
+    ensures={
+        # nothing but declared languagesystems is reported: every (tag, languages) entry stands under the tag's Unicode script, and every listed
+        # language comes from a `languagesystem <tag> <language>` statement (DFLT ones only when not excluded)
+        "only-declared": f"all(all(ot_script(e[0]) == sc and all(any({_KEPT.format(s=_ST + '[a]')} and {_ST}[a].script == e[0] and {_ST}[a].language == l"
+        f" for a in range(len({_ST}))) for l in e[1]) for e in result[sc]) for sc in result)",
+    },
+    bounded_ensures={
+        # ALL languages of a tag, wherever in the file the statements stand.  Run-time only: the engine models a filtered list comprehension
+        # without an index for "every passing element occurs in the result", which this direction needs (notes/C20.requests.md)
+        "all-languages-per-tag": f"all(implies({_KEPT.format(s=_ST + '[a]')}, ot_script({_ST}[a].script) in result"
+        f" and any(e[0] == {_ST}[a].script and {_ST}[a].language in e[1] for e in result[ot_script({_ST}[a].script)])) for a in range(len({_ST})))",
+    },
+    canaries={"nothing-reported": "all(len(result[sc]) == 0 for sc in result)"},
+    locals={"languagesByScript": Dict(STR, List(STR)), "langSysMap": LANGMAP},
+    ghost_vars={"wl": (Dict(Tuple(STR, STR), INT), "{}")},
+    ghost={"languagesByScript.setdefault(ls.script, []).append(ls.language)": ["wl = {**wl, (ls.script, ls.language): i}"]},
+    loops={
+        "for ls in [st for st in feaFile.statements if isinstance(st, ast.LanguageSystemStatement)]": Loop(
+            index="i",
+            seq="R",
+            invariants={
+                # ghost witness wl[(tag, language)] = a position of R that contributed the pair
+                "sound": "all(all((t, l) in wl and 0 <= wl[(t, l)] and wl[(t, l)] < i and R[wl[(t, l)]].script == t and R[wl[(t, l)]].language == l"
+                " and not (t == 'DFLT' and excludeDflt) for l in languagesByScript[t]) for t in languagesByScript)",
+            },
+        ),
+        "for (script, languages) in languagesByScript.items()": Loop(
+            index="j",
+            seq="KT",
+            invariants={
+                "script": "all(all(ot_script(e[0]) == sc for e in langSysMap[sc]) for sc in langSysMap)",
+                "tag": "all(all(e[0] in languagesByScript for e in langSysMap[sc]) for sc in langSysMap)",
+                "languages": "all(all(e[1] == languagesByScript[e[0]] for e in langSysMap[sc]) for sc in langSysMap)",
+            },
+        ),
+    },
+)
+
+
+def _gsls_cases(rng, n):
+    tags = [("DFLT", "dflt"), ("latn", "dflt"), ("latn", "TRK"), ("latn", "AZE"), ("arab", "dflt"), ("arab", "URD"), ("dev2", "dflt"), ("deva", "dflt"), ("deva", "MAR")]
+    out = [{"pairs": [["DFLT", "dflt"], ["latn", "dflt"], ["arab", "dflt"], ["latn", "TRK"], ["arab", "URD"]], "exclude": True}]
+    for _ in range(n - 1):
+        ps = rng.sample(tags, rng.randint(0, 6))
+        if ("DFLT", "dflt") in ps:
+            ps.remove(("DFLT", "dflt"))
+            ps.insert(0, ("DFLT", "dflt"))
+        out.append({"pairs": [list(p) for p in ps], "exclude": rng.random() < 0.6})
+    return out
+
+
+CONTRACTS["ufo2ft.featureWriters.ast:getScriptLanguageSystems"].runtime = Runtime(
+    _gsls_cases,
+    lambda d: {"feaFile": c17.parse_fea("".join(f"languagesystem {s} {l};\n" for s, l in d["pairs"]) + "feature liga {\n    sub a by b;\n} liga;\n"), "excludeDflt": d["exclude"]},
+    call=lambda fn, a: fn(a["feaFile"], a["excludeDflt"]),
+)
